@@ -10,7 +10,7 @@ from props.common import *
 from vfw import x690ref as R
 from vfw.schema import T
 
-BOUNDS = ("constrained types: INTEGER (0..10); INTEGER (0..20) EXCEPT (3..5 | 11..13 | 18); INTEGER (0..2 | 7 | 9 | 15..16); OCTET STRING SIZE (1..2); SEQUENCE OF INTEGER (0..10) SIZE (1..2); SET OF likewise; SEQUENCE {a INTEGER (0..10), b OCTET STRING SIZE (1..2) "
+BOUNDS = ("constrained types: BIT STRING SIZE (2..4) (two decodes in a row); INTEGER (0..10); INTEGER (0..20) EXCEPT (3..5 | 11..13 | 18); INTEGER (0..2 | 7 | 9 | 15..16); OCTET STRING SIZE (1..2); SEQUENCE OF INTEGER (0..10) SIZE (1..2); SET OF likewise; SEQUENCE {a INTEGER (0..10), b OCTET STRING SIZE (1..2) "
           "OPTIONAL, c BOOLEAN DEFAULT FALSE}; SET {a, b?} ; inputs = reference encodings of a neighbouring, unconstrained type with symbolic slots (values -2..12, lengths 0..3, "
           "0..3 elements, members missing / repeated / extra / permuted, definite and indefinite length), decoders BER/CER/DER")
 OUTSIDE = "constraint kinds other than value range, size and mandatory presence; deeper nesting"
@@ -88,6 +88,26 @@ def scalar_excl(dec, v, nested):
     if nested:
         return _after(spec, w, None if (ok_x and ok_u) else "INTEGER %d accepted although excluded by the component's constraint" % v)
     return _after(spec, w, None if ok_x else "INTEGER %d accepted although (0..20) EXCEPT (3..5 | 11..13 | 18) excludes it" % v)
+
+
+def bits_twice(dec, n1, n2, v, nested):
+    """Two BIT STRING encodings with the same number but different lengths decoded one after the other under ONE size-constrained type."""
+    F = univ.BitString().subtype(subtypeSpec=constraint.ValueSizeConstraint(2, 4))
+    spec = univ.Sequence(componentType=namedtype.NamedTypes(namedtype.NamedType("flags", F))) if nested else F
+    if v >= 2 ** n1 or v >= 2 ** n2:
+        raise Skip()
+    N_BITS = T("BITS")
+    nt = T("SEQ", comps=[("flags", N_BITS, "req", None)])
+    for n in (n1, n2):
+        octets = bytes(R.der(nt, {"flags": (n, v)}) if nested else R.der(N_BITS, (n, v)))
+        w = _try(dec, octets, spec)
+        if w is None:
+            continue
+        got = w["flags"] if nested else w
+        msg = _after(spec, w, None if 2 <= len(got) <= 4 else "BIT STRING of %d bits under SIZE (2..4)" % len(got))
+        if msg:
+            return msg
+    return None
 
 
 def scalar_octs(dec, n, o0, o1, o2):
@@ -202,6 +222,8 @@ def setrec(dec, indef, ha, a, hb, bn, b0, dup, extra, swap):
 
 V = I(-2, 12)
 OBLIGATIONS = [
+    Obl("bits_twice", bits_twice, {"dec": I(0, 2), "n1": I(0, 6), "n2": I(0, 6), "v": I(0, 3), "nested": B}, shards=[{"dec": C(d_)} for d_ in range(3)], budget=120,
+        doc="BIT STRING SIZE (2..4): two encodings with the same number and different lengths decoded in a row under one type object"),
     Obl("scalar_excl", scalar_excl, {"dec": I(0, 2), "v": I(-3, 23), "nested": B}, budget=90,
         doc="INTEGER (0..20) EXCEPT (3..5 | 11..13 | 18) and a union constraint, at top level and as SEQUENCE members: accepted => inside the set-theoretic denotation"),
     Obl("scalar_int", scalar_int, {"dec": I(0, 2), "v": I(-300, 300)}, budget=60),
